@@ -13,6 +13,8 @@ PEG AST (E2, cross-checked against the compiled parser) or by the lower-case typ
  radix    C05.3."""
 import facts as F
 import grammar
+import re
+
 import graph as G
 import mirutil as MU
 import norm
@@ -262,14 +264,58 @@ def run(tier):
     # ---- line ends
     key = "parser::parse"
     if key in P.body:
-        calls = [MU.callee_names(t)[1] for _, t, _, _ in P.call_sites(key)]
+        scope = [k for k in P.reachable([key]) if k.startswith("parser::")]
+        calls = [MU.callee_names(t)[1] for k in scope for _, t, _, _ in P.call_sites(k)]
         ok = "core::str::<impl str>::lines" in calls
         rep.ob("C14.line-ends", ok, "lines are split with str::lines, which treats LF and CRLF alike" if ok else
                "the line splitter is not str::lines (%s): CRLF input may leave a CR on every line" % [c for c in calls if "split" in c or "lines" in c])
     else:
         rep.unprovable("C14.line-ends", "parser::parse not found")
+    raw_text(P, rep)
     prefilters(P, g, rep)
     return rep
+
+
+RAW_TEXT_API = re.compile(r"^(core|std)::str::<impl str>::(find|rfind|contains|starts_with|ends_with|split\w*|rsplit\w*|trim\w*|strip_\w+|matches|rmatches|match_indices|"
+                          r"char_indices|chars|bytes|as_bytes|get|get_unchecked|replace|replacen|is_char_boundary|eq_ignore_ascii_case|to_ascii_\w+|split_at\w*|"
+                          r"parse|repeat)$|^core::str::traits::<impl std::ops::Index|^core::str::traits::<impl std::cmp::PartialEq for str>::eq$|"
+                          r"^(core|std)::char::methods::<impl char>::")
+
+
+def raw_text(P, rep):
+    """Layering, second half: between reading the source and the grammar, the line pipeline (module `parser`) does not look into the text
+    of a line — no search, split, trim, slice, comparison or character test — except on what the grammar's code_part rule handed out.
+    Line splitting (str::lines) and plain copying are no decisions.  What the text means is decided in one place, the grammar."""
+    roots = [r for r in ("parser::parse_str", "parser::parse_file", "parser::parse") if r in P.body]
+    scope = sorted(k for k in P.reachable(roots) if k.startswith("parser::"))
+    n = 0
+    for k in scope:
+        b = P.body[k]
+        for bb, t, name, tg in P.call_sites(k):
+            full, rp = MU.callee_names(t)
+            if not RAW_TEXT_API.search(rp) or not t["args"]:
+                continue
+            # paths are not source text
+            locs, consts, calls, places = MU.backward_slice(b, t["args"][:1])
+            cn = [MU.callee_names(c)[1] for c in calls]
+            if any("path::Path" in x or "PathBuf" in x or "to_string_lossy" in x for x in cn):
+                continue
+            n += 1
+            via = any("code_part" in x for x in cn)
+            # inside a closure: what it iterates is decided by the enclosing function (checked there through the iterator's slice)
+            if "{closure#" in k and not via:
+                outer = k.split("::{closure#")[0]
+                ob_ = P.body.get(outer)
+                if ob_ is not None:
+                    via = any("code_part" in MU.callee_names(t2)[1] for _, t2, _, _ in P.call_sites(outer))
+            api = rp.rsplit("::", 1)[-1]
+            rep.ob("C14.raw-text|%s|%s" % (k, api), via,
+                   "%s in %s works on what the grammar's code_part rule handed out" % (api, k.split("::")[-1]) if via else
+                   "%s in %s looks into the raw text of a line (%s) before the grammar does: what it finds inside a comment or a string can change what is assembled" % (api, k, rp),
+                   loc=loc_of(b["blocks"][bb]["tspan"]))
+    rep.count("text-inspecting calls in the line pipeline", n)
+    rep.count("functions of the line pipeline", len(scope))
+    rep.floor("functions of the line pipeline", len(scope), 6)
 
 
 def prefilters(P, g, rep):
